@@ -210,6 +210,19 @@ def run(ctx):
                 uses_errno = any((n.k == 'CallExpr' and n.get('callee') == '__errno_location') or
                                  (n.k == 'DeclRefExpr' and n['ref'].get('name') == 'errno') for n in b.cond.walk())
                 if uses_errno:
+                    # accepted: a raw system call repeated while errno == EINTR and nothing else (each retry needs a
+                    # signal to arrive; the kernel call itself makes progress or fails differently next time).  Not
+                    # accepted: EAGAIN/EWOULDBLOCK (busy wait on the peer), or a stdio call in the loop (its error
+                    # flag and errno are sticky).
+                    consts = {strip(x).get('v') for n in b.cond.walk() if n.k == 'BinaryOperator' and n.get('op') in ('==', '!=')
+                              for x in n.ch if strip(x) is not None and strip(x).get('v') is not None}
+                    STDIO = {'fgets', 'fread', 'fwrite', 'fprintf', 'fputs', 'fflush', 'getline', 'fscanf', 'fgetc', 'getc', 'fclose'}
+                    stdio_in_loop = [c for bid2 in comp for c in f.blocks[bid2].elems
+                                     if c.k == 'CallExpr' and c.get('callee') in STDIO]
+                    if consts and consts <= {4} and not stdio_in_loop:
+                        chk.ob('B5', 'eintr-retry[%s]' % f.name, True, b.cond.where(), f.name, nontrivial=False,
+                               how='raw system call repeated on EINTR only')
+                        continue
                     chk.ob('B5', 'errno-retry-loop[%s]' % f.name, False, b.cond.where(), f.name,
                            'the loop goes round again depending on errno (%s): nothing bounds the retries, so a persistent '
                            'or sticky condition (EAGAIN on an unread queue, EINTR with a stdio error flag that is never '
